@@ -137,18 +137,18 @@ theorem C04_dest_ack_ends (env : Dest.Env) (d : Dest.DestSt) (h : Hdr) (o c ts :
 /-! ### receiver: NAK sequences awaiting missing data -/
 
 theorem C04_nak_no_early_expiry (env : Dest.Env) (d : Dest.DestSt) (t : Timer) (rc : RemoteCfg) (fse : Nat)
-    (ha : d.p.deferredActive = true) (hrc : d.p.remoteCfg = some rc) (hf : d.p.fileSizeEof = some fse)
+    (ha : d.p.deferredActive = true) (hnc : d.p.canceled = false) (hrc : d.p.remoteCfg = some rc) (hf : d.p.fileSizeEof = some fse)
     (hmiss : d.p.trk ≠ [] ∨ d.p.metadataMissing = true)
     (ht : d.p.procTimer = some t) (hbusy : t.timedOut env.now = false) :
     Dest.deferredLostSegmentHandling env d = .ok () d := by
   have hm : ¬(d.p.trk = [] ∧ d.p.metadataMissing = false) := by
     rcases hmiss with h | h <;> simp [h]
-  msimp [Dest.deferredLostSegmentHandling, Dest.getP, ha, hrc, hf, hm, ht, Timer.busy, hbusy]
+  msimp [Dest.deferredLostSegmentHandling, Dest.getP, ha, hnc, hrc, hf, hm, ht, Timer.busy, hbusy]
 
 /-- an expiry below the limit re-issues the whole NAK sequence and adds exactly one to the counter -/
 theorem C04_nak_expiry_reissues (env : Dest.Env) (d : Dest.DestSt) (t : Timer) (rc : RemoteCfg)
     (fse maxSegs : Nat)
-    (ha : d.p.deferredActive = true) (hrc : d.p.remoteCfg = some rc) (hf : d.p.fileSizeEof = some fse)
+    (ha : d.p.deferredActive = true) (hnc : d.p.canceled = false) (hrc : d.p.remoteCfg = some rc) (hf : d.p.fileSizeEof = some fse)
     (hmiss : d.p.trk ≠ [] ∨ d.p.metadataMissing = true)
     (ht : d.p.procTimer = some t) (hexp : t.timedOut env.now = true)
     (hlim : d.p.nakCounter + 1 ≠ rc.nakLim) (hmax : maxSegReqs rc.maxPkt d.p.conf = some maxSegs) :
@@ -159,12 +159,12 @@ theorem C04_nak_expiry_reissues (env : Dest.Env) (d : Dest.DestSt) (t : Timer) (
                                       procTimer := some ⟨env.now, t.timeout⟩ } } := by
   have hm : ¬(d.p.trk = [] ∧ d.p.metadataMissing = false) := by
     rcases hmiss with h | h <;> simp [h]
-  msimp [Dest.deferredLostSegmentHandling, Dest.getP, ha, hrc, hf, hm, ht, Timer.busy, hexp, hlim, hmax,
+  msimp [Dest.deferredLostSegmentHandling, Dest.getP, ha, hnc, hrc, hf, hm, ht, Timer.busy, hexp, hlim, hmax,
     Dest.addPackets, Dest.modP, Timer.reset]
 
 /-- an expiry with `counter + 1 = limit` declares NAK-limit-reached and sends no NAK -/
 theorem C04_nak_expiry_at_limit (env : Dest.Env) (d : Dest.DestSt) (t : Timer) (rc : RemoteCfg) (fse : Nat)
-    (ha : d.p.deferredActive = true) (hrc : d.p.remoteCfg = some rc) (hf : d.p.fileSizeEof = some fse)
+    (ha : d.p.deferredActive = true) (hnc : d.p.canceled = false) (hrc : d.p.remoteCfg = some rc) (hf : d.p.fileSizeEof = some fse)
     (hmiss : d.p.trk ≠ [] ∨ d.p.metadataMissing = true)
     (ht : d.p.procTimer = some t) (hexp : t.timedOut env.now = true)
     (hlim : d.p.nakCounter + 1 = rc.nakLim) :
@@ -172,7 +172,7 @@ theorem C04_nak_expiry_at_limit (env : Dest.Env) (d : Dest.DestSt) (t : Timer) (
       (do let _ ← Dest.declareFault ccNakLimit; pure ()) d := by
   have hm : ¬(d.p.trk = [] ∧ d.p.metadataMissing = false) := by
     rcases hmiss with h | h <;> simp [h]
-  msimp [Dest.deferredLostSegmentHandling, Dest.getP, ha, hrc, hf, hm, ht, Timer.busy, hexp, hlim]
+  msimp [Dest.deferredLostSegmentHandling, Dest.getP, ha, hnc, hrc, hf, hm, ht, Timer.busy, hexp, hlim]
 
 /-- progress resets the NAK activity counter and restarts the timer -/
 theorem C04_nak_progress_resets (env : Dest.Env) (d : Dest.DestSt) (t : Timer)
